@@ -49,6 +49,8 @@ def kind_of(fn):
         stamp = base.rsplit("@", 1)[1][:-3]
         if stamp.isdigit() and stamp.isascii():
             return "dmd"
+        if len(stamp) > 4 and stamp[-4] == "." and stamp[-3:].isdigit() and stamp[:-4].isdigit() and stamp.isascii():
+            return "rf"
     if base.startswith(("md@", "metadata@")):
         return "dmd"
     return "rf"
@@ -228,7 +230,8 @@ NAME = st.text(alphabet=st.characters(blacklist_categories=("Cs", "Cc"), blackli
 def _cases(draw):
     def one():
         prefix = draw(st.one_of(st.sampled_from(["rf", "md", "x", "tmp.rf", "tmp", "a@b", "rf@1", "tmp.", ".tmp", "t.mp."]), NAME))
-        secs = draw(st.one_of(st.just(str(T)), st.integers(0, 10 ** 12).map(str), st.just(""), st.just("12a")))
+        # file times stay inside the window of the (10 s) subdirectory they are placed in, as the format guarantees
+        secs = draw(st.one_of(st.just(str(T)), st.integers(T, T + 9).map(str), st.just("0%d" % T), st.just(""), st.just("12a")))
         frac = draw(st.sampled_from([".000", ".000", "", ".5", ".00", ".0000", ".999"]))
         ext = draw(st.sampled_from([".h5", ".h5", ".h5", ".hdf5", ".h5.tmp", ""]))
         fn = "%s@%s%s%s" % (prefix, secs, frac, ext)
